@@ -388,3 +388,36 @@ kani("models::fast_f32_rejects_bad_entries", ["C19"], fns=[M + "categorical.rs::
 kani("models::non_contiguous_fast_counts", ["C19", "C03"], kind="bounded", bound="3 probabilities, 1..4 symbols", timeout=900,
      fns=[M + "categorical/non_contiguous.rs::NonContiguousCategoricalDecoderModel::from_symbols_and_floating_point_probabilities_fast"],
      text="Ok iff the number of symbols equals the number of probabilities")
+
+# ---------------- Verus unit: UniformModel queries (uniform.rs) + wrapping_pow2 (lib.rs)
+_U_ENC = "EncoderModel<PRECISION>\n    for UniformModel<Probability, PRECISION>"
+_U_DEC = "DecoderModel<PRECISION>\n    for UniformModel<Probability, PRECISION>"
+verus_unit(
+    name="uniform", template="uniform_unit.rs.tmpl",
+    widths=["u8_u16", "u16_u32", "u32_u64"],   # only the Word column is used: Probability = u8, u16, u32
+    slots={
+        "WPOW2": dict(file="src/lib.rs", anchor="#[inline(always)]\nfn wrapping_pow2", fn="wrapping_pow2", extra=[
+            (r"T::BITS", "PROB_BITS", 1), (r"T::zero\(\)", "(0 as Probability)", 1), (r"T::one\(\)", "(1 as Probability)", 1),
+        ]),
+        "LCP": dict(file="src/stream/model/uniform.rs", anchor=_U_ENC, fn="left_cumulative_and_probability", extra=[
+            (r"\*symbol\.borrow\(\) >", "symbol >", 1),
+            (r"symbol\.borrow\(\)\.as_\(\)", "symbol.u2p()", 1),
+            (r"\.wrapping_mul\(&", ".wrapping_mul(", 1),
+            (r"wrapping_pow2::<Probability>\(PRECISION\)", "wrapping_pow2(PRECISION)", 1),
+            (r"#\[allow\(clippy::comparison_chain\)\]", "", 1),
+        ]),
+        "QUANTILE": dict(file="src/stream/model/uniform.rs", anchor=_U_DEC, fn="quantile_function", extra=[
+            (r"symbol_guess\.as_\(\)", "symbol_guess.p2u()", 1),
+            (r"self\.last_symbol\.as_\(\)", "self.last_symbol.p2u()", 1),
+            (r"wrapping_pow2::<Probability>\(PRECISION\)", "wrapping_pow2(PRECISION)", 1),
+        ]),
+    },
+    obligations={
+        "wrapping_pow2": dict(own=["C03", "C20"], dep=["C09", "C05"], text="ensures: 2^e for e < BITS, 0 for e >= BITS"),
+        "left_cumulative_and_probability": dict(own=["C03", "C09", "C20"], dep=["C05"], kani_twin="models::uniform_u8_p8::valid",
+                                                text="ensures: None iff symbol > last_symbol (compared as usize); else the spec entry (s*ppb, ppb) / last: (s*ppb, 2^P - s*ppb) with probability >= 1 [all P]"),
+        "quantile_function": dict(own=["C03", "C10", "C20"], dep=["C05"], kani_twin="models::uniform_u8_p8::valid",
+                                  text="ensures: returns (s,c,p) with entry(s) == (c,p) and c <= q < c+p [all P]"),
+        "lemma_tiling": dict(own=["C03"], dep=[], text="entries tile [0,2^P) consecutively, non-empty, none is the whole mass"),
+    },
+)
